@@ -91,4 +91,15 @@ theorem C09_fromPhysical_rule (s : DSignal) (p : F64) :
        if s.signed then f64Max (f64OfInt (sInt64 (minSigned s.length))) (f64Min (f64OfInt (sInt64 (maxSigned s.length))) r)
        else f64Max 0 (f64Min (f64OfNat (maxUnsigned s.length).toNat) r)) := rfl
 
+/-- **Finding F3 as a theorem about the model**: 8-bit unsigned, factor -0.01, offset 100.  The physical value of raw 8
+is converted back to raw 7: the quotient comes out just below 8 and the conversion truncates.  So "the reproduced value
+differs by less than one factor step" is false of the model as it is of the code (the oracle reports it as the known
+finding F3), and the round-trip clause can only be proved with a rounding conversion. -/
+def f3Sig : DSignal :=
+  { name := [], start := 0, length := 8, bigEndian := false, signed := false, mux := false, muxed := false, muxValue := 0,
+    offset := 0x4059000000000000, scale := 0xbf847ae147ae147b, min := 0, max := 0, unit := [], receivers := [] }
+
+theorem C09_F3_witness :
+    f64ToIntType false 8 (fromPhysical f3Sig (toPhysical f3Sig (f64OfNat 8))) = 7 := by decide +kernel
+
 end CanVerif
